@@ -15,10 +15,13 @@
 static void *vpd_malloc(size_t sz);
 static void *vpd_calloc(size_t n, size_t sz);
 static void vpd_free(void *p);
+static char *vpd_strdup(const char *s);
 #undef mm_malloc
 #undef mm_calloc
 #undef mm_free
 #define mm_free(p) vpd_free((p))
+#undef mm_strdup
+#define mm_strdup(s) vpd_strdup((s))      /* byte loop: the copy of a literal stays a constant for symex */
 #define mm_malloc(sz) vpd_malloc((sz))
 #define mm_calloc(n, sz) vpd_calloc((n), (sz))
 /* memset(obj, 0, sizeof(T)) on a typed object goes through a byte view under cbmc's model, after which the fields are
